@@ -534,7 +534,10 @@ func (t *Trie) getFromStore(h util.Uint256) (Node, error) {
 	}
 
 	if t.mode.RC() {
-		data = data[:len(data)-5]
+		// Limit the capacity as well: this slice is used as a base for append()
+		// in updateRefCount, which must not overwrite the counter of the value
+		// kept by the storage.
+		data = data[: len(data)-5 : len(data)-5]
 		node := t.refcount[h]
 		if node != nil {
 			node.bytes = data
